@@ -32,5 +32,5 @@ def main(tier):
     chk.run("R-INCIDENTAL-PURE", T.incidental_pure, r, s, cx.sites, floor=8)
     chk.run("R-SKIPLOSS", T.skiploss, r, s, cx.sites, modules=("constraints.py", "attribute_checker.py"), floor=2)
     chk.run("R-BOUNDARY", RG.boundary, r, floor=130)
-    chk.run("R-INTRANGE", RG.intrange, r, floor=190)
+    chk.run("R-INTRANGE", RG.intrange, r, parts=('gate', 'leaf'), floor=150)
     return chk.finish()
